@@ -1045,6 +1045,18 @@ static void cmd_reset (int argc, char **argv)
   ob_puts (&out, "OK");
 }
 
+static long pump (int budget);
+static int pump_budget;
+/* RELOAD : re-read the configuration file the bus was started from (what SIGHUP does in bus/main.c) */
+static void cmd_reload (void)
+{
+  DBusError err;
+  if (!bus) { ob_puts (&out, "ERR nobus"); return; }
+  dbus_error_init (&err);
+  if (!bus_context_reload_config (bus, &err)) { ob_printf (&out, "ERR %s: %s", err.name, err.message); dbus_error_free (&err); return; }
+  ob_printf (&out, "OK it=%ld", pump (pump_budget));
+}
+
 static int raw_connect (unsigned long uid)
 {
   struct sockaddr_un sa; int fd; int slot;
@@ -1203,7 +1215,7 @@ static void cmd_send (int argc, char **argv)
   free (buf);
 }
 
-static int pump_budget = 2000;
+/* (declared above) */ static int pump_budget = 2000;
 
 /* STEP <c> <hex> [fdlist] -> "OK w=<written> it=<iters>[ c0=...]" */
 static void cmd_step (int argc, char **argv)
@@ -1382,6 +1394,7 @@ int main (int argc, char **argv)
       else if (!strcmp (args[0], "OOMCONFIG")) cmd_oomconfig (n, args);
       else if (!strcmp (args[0], "VALENUM")) cmd_valenum (n, args);
       else if (!strcmp (args[0], "RESET")) cmd_reset (n, args);
+      else if (!strcmp (args[0], "RELOAD")) cmd_reload ();
       else if (!strcmp (args[0], "CONNECT")) cmd_connect (n, args);
       else if (!strcmp (args[0], "RAWCONNECT")) cmd_rawconnect (n, args);
       else if (!strcmp (args[0], "SEND")) cmd_send (n, args);
